@@ -232,6 +232,7 @@ func (it *Interp) Final() {
 			fail("lock|final|still-locked", "%s: world locked after every query was closed", b.Name)
 		}
 		b.CheckWorld(it.M, "state|final", "end of case", true)
+		b.checkRegistry(it.Step)
 		if !b.Pol.SkipStats || true {
 			it.checkStats(b, "stats|final")
 		}
